@@ -97,6 +97,10 @@ class LFDA(MahalanobisMixin, TransformerMixin):
         Class labels, one per point of data.
     '''
     X, y = self._prepare_inputs(X, y, ensure_min_samples=2)
+    if X.dtype.kind in 'biu':
+      # the scatter matrices are products of X with itself: in a narrow
+      # integer type these wrap around
+      X = X.astype(float)
     unique_classes, y = np.unique(y, return_inverse=True)
     n, d = X.shape
     num_classes = len(unique_classes)
